@@ -35,7 +35,6 @@ _NA = 6.02214076e23
 _KCALMOL = 4184.0 / _NA
 _BOHR = 5.29177210903e-11
 _HARTREE = 4.3597447222071e-18
-_ATU = 1.054571817e-34 / _HARTREE          # hbar / Hartree = 2.4189e-17 s
 _STATC = 3.3356409519815204e-10            # statcoulomb in C (10 / c)
 
 # SI value of the unit of (mass, length, time, charge, velocity, force, torque, dipole, density) per style.
@@ -48,7 +47,7 @@ _SI = {
     'si': dict(mass=1.0, length=1.0, time=1.0, charge=1.0, velocity=1.0, force=1.0, torque=1.0, dipole=1.0, density=1.0),
     'cgs': dict(mass=1e-3, length=1e-2, time=1.0, charge=_STATC, velocity=1e-2, force=1e-5, torque=1e-7,
                 dipole=_STATC * 1e-2, density=1e3),
-    'electron': dict(mass=_MW, length=_BOHR, time=1e-15, charge=_QW, velocity=_BOHR / _ATU, force=_HARTREE / _BOHR,
+    'electron': dict(mass=_MW, length=_BOHR, time=1e-15, charge=_QW, velocity=_BOHR / 1.03275e-15, force=_HARTREE / _BOHR,
                      torque=1e-7, dipole=3.3356409519815204e-30, density=None),
     'micro': dict(mass=1e-15, length=1e-6, time=1e-6, charge=1e-12, velocity=1.0, force=1e-15 * 1e-6 / 1e-12,
                   torque=1e-15 * 1e-12 / 1e-12, dipole=1e-18, density=1e-15 / 1e-18),
